@@ -36,13 +36,14 @@ ASSUMPTIONS = [
     "only final HOST ARRAYS are compared (locations undefined after the plain run "
     "are not compared); an undefined device value that steers control on the way "
     "is the same failure",
-    "a data region whose host statements and compute constructs touch the same "
-    "array cannot be made right by ANY copyin/copyout/copy assignment (it needs "
-    "update directives, which are outside the claim): an element is judged only "
-    "if the oracle's own clause assignment (computed from E1's device access "
-    "trace: upward-exposed device reads -> in, device-written -> out, partially "
-    "device-written -> in+out) makes the two-store run equal to the host run on "
-    "every input; otherwise it is counted as not-judged:needs-update-directives",
+    "a data region in which a host statement and a compute construct touch the "
+    "same array (at least one of them writing it) cannot be made right by any "
+    "copyin/copyout/copy assignment - it needs update directives, which are "
+    "outside the claim: such elements are counted as not-judged; for every judged "
+    "violation the oracle's own clause assignment (from E1's device access trace: "
+    "upward-exposed device reads -> in, device-written -> out, partially "
+    "device-written -> in+out, no device access -> no clause) is executed too and "
+    "must reproduce the host run (otherwise the harness fails)",
     "clauses are read from the '!$acc data' line printed by FortranWriter",
 ]
 BLOCK = {"quick": 4, "thorough": 16}
@@ -92,12 +93,14 @@ def init_worker(tier):
 # ---------------------------------------------------------------------------
 def place_compute(tree, placement, classes):
     """Wrap top-level statements of routine s in compute constructs (in place).
-    Returns the number of constructs created."""
+    Returns (number of constructs created, descriptor of the resulting tree:
+    two placements with the same descriptor give the same tree)."""
     from psyclone.psyir import nodes as N
     from psyclone.psyir.transformations import ACCKernelsTrans, TransformationError
     from psyclone.transformations import ACCLoopTrans, ACCParallelTrans
     routine = tree.walk(N.Routine)[0]
     made = 0
+    groups = []
 
     def count(name):
         classes[name] = classes.get(name, 0) + 1
@@ -108,6 +111,7 @@ def place_compute(tree, placement, classes):
             try:
                 ACCKernelsTrans().apply(node)
                 made += 1
+                groups.append((idx,))
                 count("ACCKernelsTrans:accepted")
             except TransformationError:
                 count("ACCKernelsTrans:refused")
@@ -126,8 +130,11 @@ def place_compute(tree, placement, classes):
             runs.append(cur)
         for run in runs:
             try:
+                where = tuple(pos for pos, kid in enumerate(kids)
+                              if any(kid is node for node in run))
                 ACCKernelsTrans().apply(run)
                 made += 1
+                groups.append(where)
                 count("ACCKernelsTrans(run):accepted")
             except TransformationError:
                 count("ACCKernelsTrans(run):refused")
@@ -140,12 +147,15 @@ def place_compute(tree, placement, classes):
                 ACCLoopTrans().apply(node)
                 ACCParallelTrans().apply(routine.children[idx])
                 made += 1
+                groups.append((idx,))
                 count("ACCLoopTrans+ACCParallelTrans:accepted")
             except TransformationError:
                 count("ACCLoopTrans:refused")
     else:
         raise RuntimeError(placement)
-    return made
+    if not made:
+        return 0, ("none",)
+    return made, ("parallel" if placement == "P" else "kernels", tuple(groups))
 
 
 _CLAUSE = re.compile(r"\b(copyin|copyout|copy)\(([^)]*)\)")
@@ -164,7 +174,7 @@ def data_region(tree, pidx, qidx):
         ACCDataTrans().apply(routine.children[pidx:qidx + 1])
     except TransformationError as err:
         return ("refused", str(err.value)[:80])
-    text = FortranWriter()(fresh)
+    text = FortranWriter()(routine)
     lines = [ln.strip() for ln in text.split("\n")
              if ln.strip().lower().startswith("!$acc data")]
     if len(lines) != 1:
@@ -300,12 +310,21 @@ def check_element(tree, progkey, placement, pidx, qidx, inputs, reference,
     if not bad:
         count("element:ok")
         return [], sample
-    # -- could ANY clause assignment have worked?  (the oracle's own)
+    # -- an array shared by a host statement and a compute construct of the
+    #    region (one of them writing it) needs update directives: not judged
+    mixed = sorted((host_written & dev_any) | (host_read & need_out))
+    if mixed:
+        count("element:not-judged:array-shared-by-host-and-device-needs-update")
+        sample["not_judged_shared_arrays"] = mixed
+        return [], sample
+    # -- self-check of the simulator: the oracle's own clause assignment must
+    #    reproduce the host result
     for inp in inputs:
         out = run_two_store(fresh, inp, needed)
         if out[0] == "ub" or out[2] or compare(want[inp], out[1]) is not None:
-            count("element:not-judged:needs-update-directives")
-            return [], sample
+            raise RuntimeError(
+                f"the oracle's clauses {needed} do not reproduce the host run: "
+                f"{progkey} {placement} [{pidx}..{qidx}] {G.input_key(inp)} {out}")
     # -- genuine: name the culprit arrays
     dnode = fresh.walk(N.ACCDataDirective)[0]
     nodes = dnode.dir_body.children
@@ -378,8 +397,7 @@ def run_program(keys, stats, only=None):
         if only is not None and only[0] != placement:
             continue
         placed = tree.copy()
-        made = place_compute(placed, placement, stats["classes"])
-        text = transcheck.write(placed)
+        made, text = place_compute(placed, placement, stats["classes"])
         if text in seen and only is None:
             stats["classes"]["placement-same-tree-as-earlier"] = \
                 stats["classes"].get("placement-same-tree-as-earlier", 0) + 1
